@@ -1569,6 +1569,15 @@ namespace bloch::compiler {
                                  "'" + fn->name + "' is already declared in this scope");
             }
             declareFunction(fn->name);
+            // Record the signature now so that calls written before the declaration (or inside
+            // class methods, which are analysed first) are checked against it.
+            FunctionInfo info;
+            info.returnType = typeFromAst(fn->returnType.get());
+            for (auto& p : fn->params) {
+                if (p)
+                    info.paramTypes.push_back(typeFromAst(p->type.get()));
+            }
+            m_functionInfo[fn->name] = info;
         }
         for (auto& cls : program.classes)
             if (cls)
